@@ -20,6 +20,11 @@ def _hnd(focus, quick=64, thorough=1500):
         "explanation": "theorems about Model/Handler.v + step-by-step correspondence of the real Handler (virtual wire, paused clock) with the model on generated event histories + direct monitors written from the property text",
     }
 
+QUERY_TB = [
+    "modelled, not verified: std::time::Instant / Duration (N nanoseconds; Instant - Instant saturates), BTreeMap<Distance, _> (a list sorted strictly by distance), FnvHashMap (association list + iteration-order oracle), Key<NodeId> (the 256-bit id itself), the predicate closure (its value on each reported record is an input), usize = 64 bit",
+    "the hooks src/verif/query.rs (thin delegating wrappers around the crate-private state machines) and the verif_dump / verif_started / verif_next_id / verif_set_next_id copies of private fields",
+]
+
 SPECS = {
     "C07": {
         "coq_files": KB_FILES + ["Lib/ListY.v", "Proofs/KBucketInv.v", "Proofs/KBucketTable.v", "Proofs/KBucketPending.v"] + ["Proofs/KBucketExamples.v"],
@@ -131,5 +136,33 @@ SPECS = {
             "a PONG from a voter that is not eligible at that moment (not connected+outgoing and no more votes needed) is ignored entirely: it does not retract the voter's earlier counted vote",
         ],
         "explanation": "theorems over Model/IpVote.v (exact f64 threshold and its 70 % reading, order-independent scan, winner characterisation, one vote per node, change => winner + seq bump + event, fewer than minimum voters never move the record) + correspondence of IpVote (real clock, bracketed), of the f64 threshold (exhaustive table) and of the real Service PONG handling + direct monitors",
+    },
+    "C09": {
+        "coq_files": ["Lib/SortedX.v", "Model/Query.v", "Proofs/Query.v", "Proofs/QueryPool.v", "Run/QueryRun.v"],
+        "runner_vo": "Run/QueryRun.v",
+        "harness": [
+            {"component": "query", "args": [], "quick": 96, "thorough": 1600},
+        ],
+        "trusted_base": QUERY_TB,
+        "assumptions": [
+            "'in flight' is the query's own notion (peers in state Waiting); a peer demoted to Unresponsive by the per-peer timeout may still have a transport request outstanding (libp2p design)",
+            "the iteration order of the pool's FnvHashMap is an oracle input of the model's poll (observed by the harness through QueryPool::iter); the theorems hold for every order",
+            "termination of a query in the pool needs the caller to keep polling after the deadline (Service::query_event_poll returns Pending without registering a waker; it is re-polled whenever another branch of the service loop wakes) and finitely many reported ids; the id counter wraps at 2^64 (a live query would be overwritten only after 2^64 adds)",
+            "a query with parallelism 0 never starts a request and can only be ended by the pool's query timeout",
+        ],
+        "explanation": "theorems over Model/Query.v for every configuration, candidate list and event list (no panic, num_waiting = #Waiting, capacity, in-flight bound, no peer contacted twice, budget of NotContacted peers, poll after the deadline makes progress, pool drains, result handed out at most once per add) + step-by-step correspondence of the real FindNodeQuery / PredicateQuery (fabricated Instants) and of the real QueryPool (real time, exact clock value recovered from the state) with the model + direct monitors",
+    },
+    "C10": {
+        "coq_files": ["Lib/SortedX.v", "Model/Query.v", "Proofs/Query.v", "Proofs/QueryPool.v", "Run/QueryRun.v"],
+        "runner_vo": "Run/QueryRun.v",
+        "harness": [
+            {"component": "query", "args": [], "quick": 96, "thorough": 1600},
+        ],
+        "trusted_base": QUERY_TB,
+        "assumptions": [
+            "'answered' = an on_success call for the peer was made after next handed it out (the service calls on_success from discovered() for responses to the query's request)",
+            "'every candidate it learned of' = every peer the query holds: the first num_results initial candidates (with_config applies .take(num_results) to the list it is given; the others are dropped, see C10_complete_wrt_all_initial_candidates_refuted) and every id reported in an accepted on_success",
+        ],
+        "explanation": "theorems over Model/Query.v (result is a subset of the peers that answered after being contacted, at most num_results, strictly sorted by XOR distance, distinct, predicate flag from the candidates / reports, completeness when short, the pool hands out reachable query states) + the same correspondence run as C09 + direct monitors on the result",
     },
 }
